@@ -94,6 +94,10 @@ func c04(c *q.Ctx) {
 	}
 	txRemap(c)
 	blockCacheCoherent(c)
+	// undo / redo path: the search for the fork point marks BOTH start blocks and every block it collects
+	if fu := c.Fn(led + "(*Ledger).FindUndoAndTodoBlocks"); fu != nil {
+		c.MapStoreKeys(fu, "newmap<map[string]bool>", []string{"ledger.(*Ledger).queryBlock(p0,p1,true)#0.Blockid", "ledger.(*Ledger).queryBlock(p0,p2,true)#0.Blockid", "ledger.(*Ledger).queryBlock(p0,phi{*queryBlock(p0,p1,true)#0*}.PreHash,true)#0.Blockid", "ledger.(*Ledger).queryBlock(p0,phi{*queryBlock(p0,p2,true)#0*}.PreHash,true)#0.Blockid"}, "a block is in the visited set as soon as it is in a result list: the fork point is the first block met twice")
+	}
 	sb := c.Fn(led + "(*Ledger).saveBlock")
 	if sb != nil {
 		keep := func(g q.Cond) bool { return strings.Contains(g.Canon, "p1.") }
